@@ -2342,6 +2342,10 @@ fn main() {
             let total: u64 = match tier { "thorough" => 24000, "search" => 4000, _ => 1500 };
             let mut rep = Report::default();
             let seed_s = seed.to_string();
+            // directories left behind by workers that died in an earlier run
+            if let Some(parent) = tmp_root().parent() {
+                let _ = std::fs::remove_dir_all(parent);
+            }
             worker::run_batches(&[&seed_s, tier], total, if tier == "thorough" { 1000 } else { 250 }, Duration::from_secs(900), &mut rep, |rep, last, ended| {
                 let how = match ended {
                     Ended::Signal(s, _) => format!("signal {s}"),
